@@ -165,3 +165,40 @@ def block_of(f, pred):
         if pred(n):
             return b, i, n
     return None
+
+
+def reach_consistent(f, starts, dst_pred, key_of, avoid_edges=(), avoid_blocks=()):
+    """Like Func.reach_avoiding, but paths must give one truth value to each tracked
+    atom: key_of(cond_stripped) -> hashable key or None.  State = frozenset of (key, truth).
+    Used to drop paths that take `if (x)` false and later `if (x)` true (x not reassigned)."""
+    avoid_edges = set(avoid_edges)
+    avoid_blocks = set(avoid_blocks)
+    seen = set()
+    q = [(s, frozenset(), (s,)) for s in starts if s is not None and s not in avoid_blocks]
+    while q:
+        b, st, path = q.pop()
+        if (b, st) in seen:
+            continue
+        seen.add((b, st))
+        blk = f.blocks[b]
+        if dst_pred(blk):
+            return list(path)
+        c = f.branch_cond(blk)
+        key = None
+        t0 = True
+        if c is not None:
+            e, t0 = normalize_cond(c, True)
+            key = key_of(strip(e))
+        for idx, s in enumerate(blk.succ):
+            if s is None or s in avoid_blocks or (b, s) in avoid_edges:
+                continue
+            st2 = st
+            if key is not None and len(blk.succ) == 2:
+                truth = (idx == 0) == t0  # truth of the stripped atom on this edge
+                d = dict(st)
+                if key in d and d[key] != truth:
+                    continue
+                d[key] = truth
+                st2 = frozenset(d.items())
+            q.append((s, st2, path + (s,)))
+    return None
